@@ -261,7 +261,7 @@ func absentIsBenign(n string) bool {
 		return false
 	}
 	k := n[i+1:]
-	return strings.HasPrefix(k, "safety:") || strings.HasPrefix(k, "pre:") || k == "frame" || strings.HasSuffix(k, ":frame") || strings.HasPrefix(k, "cover:loop:")
+	return strings.HasPrefix(k, "safety:") || strings.HasPrefix(k, "pre:") || k == "frame" || strings.HasSuffix(k, ":frame") || strings.HasSuffix(k, ":range-bound") || strings.HasPrefix(k, "cover:loop:")
 }
 
 func fnVerified(res *checkResult, fn string) bool {
@@ -334,6 +334,15 @@ func cmdCheck(args []string) {
 	smtDir := filepath.Join("/root/scratch/digvc", *prop)
 	os.RemoveAll(smtDir)
 	fns := w.functionsFor(*prop)
+	lock0 := readLock(filepath.Join(*verif, "obligations.lock"))
+	if !*updateLock {
+		// only claimed obligations get the expensive second-chance solvers
+		claimedSet := map[string]bool{}
+		for _, n := range lock0.Properties[*prop] {
+			claimedSet[n] = true
+		}
+		retryFilter = func(g *Goal) bool { return claimedSet[g.name] }
+	}
 	res := w.runProperty(*prop, fns, smtDir, perCheck)
 	scans := w.runScans(*prop)
 	lock := readLock(filepath.Join(*verif, "obligations.lock"))
@@ -455,6 +464,12 @@ func cmdCheck(args []string) {
 	fmt.Printf("digvc: property %s: %d claimed obligations, %d discharged, %d violations, %d known findings, %d unclaimed (%.1fs)\n",
 		*prop, len(claimed), discharged, len(viols), len(known), len(unclaimed), time.Since(t0).Seconds())
 	if os.Getenv("DIGVC_VERBOSE") != "" {
+		for _, n := range res.order {
+			o := res.obls[n]
+			if o.Ms > 1500 {
+				fmt.Printf("  slow %6dms %-10s %s (%s)\n", o.Ms, o.Status, o.Name, o.Solver)
+			}
+		}
 		for _, o := range unclaimed {
 			fmt.Printf("  unclaimed %-12s %s %s\n", o.Status, o.Name, o.Clause)
 		}
